@@ -269,6 +269,55 @@ def install_read():
     if getattr(TexSoup.tex, 'read_expr', None) is orig_expr:
         TexSoup.tex.read_expr = read_expr
 
+    # local conservation (lite): the group / item body a reader returns
+    # serialises to exactly the tokens it consumed - up to whitespace dropped
+    # before an opener (C08 relation) and, in tolerant mode, inserted closers.
+    # Localises a lost or invented character to the innermost reader call.
+    import re as _re
+    from tsv.model.align import only_closers_inserted
+    _SIG = _re.compile(r'\\(?:def|textbf|section|label)(?![A-Za-z*])')
+
+    def conserved(what, consumed, produced):
+        if CTX.probes_light or len(consumed) > 400 or _SIG.search(consumed) \
+                or '\x00' in consumed or '\x7f' in consumed:
+            return
+        CTX.counters['probe:conservation'] = CTX.counters.get('probe:conservation', 0) + 1
+        if consumed == produced:
+            return
+        names = set(_re.findall(r'\\begin\{([^{}]*)\}', produced))
+        why = only_closers_inserted(consumed, produced, names)
+        if why and _re.search(r'\\begin\s*[\[{]\s|\\begin\s*\[|\s\}', consumed):
+            return          # known normalisations of environment names (D11, D15)
+        if why:
+            violation('read', '%s consumed %r but returned %r (%s)' % (
+                what, consumed[:80], produced[:80], why))
+
+    orig_arg = reader.read_arg
+
+    @functools.wraps(orig_arg)
+    def read_arg(src, c, *a, **k):
+        p0 = src.position
+        r = orig_arg(src, c, *a, **k)
+        try:
+            conserved('read_arg', str(c) + _join(_q(src)[p0:src.position]), str(r))
+        except Exception as e:
+            violation('read', 'conservation contract raised %r' % e)
+        return r
+    reader.read_arg = read_arg
+
+    orig_item = reader.read_item
+
+    @functools.wraps(orig_item)
+    def read_item(src, *a, **k):
+        p0 = src.position
+        r = orig_item(src, *a, **k)
+        try:
+            conserved('read_item', _join(_q(src)[p0:src.position]), ''.join(map(str, r)))
+        except Exception as e:
+            violation('read', 'conservation contract raised %r' % e)
+        return r
+    reader.read_item = read_item
+
     orig_mrp = reader.make_read_peek
 
     def make_read_peek(f):
